@@ -516,9 +516,9 @@ func hasLoop(f *ssa.Function) bool {
 
 // callByContract: assert pre, havoc the frame, assume post.
 func (fc *FuncCtx) callByContract(fr *Frame, st *State, callee *ssa.Function, c *Contract, sig *types.Signature, args []Val, pos token.Pos, name string, assumed bool) Val {
-	if strings.HasSuffix(name, "sync.WaitGroup).Wait") && len(fr.spawned) > 0 {
+	if (strings.HasSuffix(name, "sync.WaitGroup).Wait") || strings.HasSuffix(name, "sync.(*WaitGroup).Wait")) && len(spawnedLiterals(fr.fn)) > 0 {
 		// the goroutines this frame started may have run until now
-		fc.rehavocSpawned(fr, st)
+		fc.rehavocSpawned(fr, st, pos)
 	}
 	env := &Env{p: fc.p, vars: map[string]SVal{}, cur: st}
 	if callee != nil && callee.Pkg != nil {
